@@ -85,10 +85,21 @@ def run_ngram(case):
         v.append(viol("shape", "shape %s expected %s" % (mat.shape, (len(docs), len(labels)))))
     got = _cells(mat, list(range(len(docs))), est.column_index_dictionary_)
     exp = {(i, g): float(c) for i, r_ in enumerate(refs) for g, c in r_.items() if g in want_labels}
-    if got != exp:
-        bad = [(k, got.get(k, 0), exp.get(k, 0)) for k in sorted(set(got) | set(exp), key=repr) if got.get(k, 0) != exp.get(k, 0)][:4]
-        sizes = sorted({len(k[1]) if isinstance(k[1], tuple) else 1 for k, _, _ in bad})
-        v.append(viol("counts:%s:gram-size-%s" % (beh, sizes), "fit_transform cells (doc, gram, got, expected): %s" % bad))
+    def split_known(g, e):
+        """separate the known 1-gram-columns-zero cells of the subgrams mode from everything else"""
+        if not (beh == "subgrams" and n > 1):
+            return [], g, e
+        one = lambda k: isinstance(k[1], tuple) and len(k[1]) == 1
+        known = [(k, g.get(k, 0), e[k]) for k in e if one(k) and g.get(k, 0) == 0]
+        g2 = {k: x for k, x in g.items() if not (one(k) and x == 0)}
+        e2 = {k: x for k, x in e.items() if not (one(k) and g.get(k, 0) == 0)}
+        return known, g2, e2
+    known, got2, exp2 = split_known(got, exp)
+    if known:
+        v.append(viol("counts:subgrams:gram-size-[1]", "fit_transform 1-gram cells are zero (doc, gram, got, expected): %s" % known[:4]))
+    if got2 != exp2:
+        bad = [(k, got2.get(k, 0), exp2.get(k, 0)) for k in sorted(set(got2) | set(exp2), key=repr) if got2.get(k, 0) != exp2.get(k, 0)][:4]
+        v.append(viol("counts:%s" % beh, "fit_transform cells (doc, gram, got, expected): %s" % bad))
     # transform on other documents (unseen tokens ignored)
     try:
         tm = est.transform(test)
@@ -100,9 +111,13 @@ def run_ngram(case):
                     texp[(i, g)] = float(c)
         if tm.shape != (len(test), len(labels)):
             v.append(viol("transform-shape", "transform shape %s expected %s" % (tm.shape, (len(test), len(labels)))))
-        elif tgot != texp:
-            bad = [(k, tgot.get(k, 0), texp.get(k, 0)) for k in sorted(set(tgot) | set(texp), key=repr) if tgot.get(k, 0) != texp.get(k, 0)][:4]
-            v.append(viol("transform-counts:%s" % beh, "transform cells (doc, gram, got, expected): %s" % bad))
+        else:
+            known, tg2, te2 = split_known(tgot, texp)
+            if known:
+                v.append(viol("transform-counts:subgrams", "transform 1-gram cells are zero (doc, gram, got, expected): %s" % known[:4]))
+            if tg2 != te2:
+                bad = [(k, tg2.get(k, 0), te2.get(k, 0)) for k in sorted(set(tg2) | set(te2), key=repr) if tg2.get(k, 0) != te2.get(k, 0)][:4]
+                v.append(viol("transform-counts:%s:other" % beh, "transform cells (doc, gram, got, expected): %s" % bad))
     except Exception as e:
         v.append(viol("transform-exception:%s" % type(e).__name__, "transform raised %r" % (e,)))
     return res(v, nt=repr(case) if exp else None, out="cells=%d" % min(len(exp), 9))
